@@ -518,7 +518,8 @@ func verifCopyDir(src string, dst string) {
 //   armstart = 1: the crash points are armed before Init, so the START-UP compaction is snapshotted as well.
 //   runs the ops on a real node started on <dir>; "rotate" forces a rotation + compaction through RewriteAofFile(true)
 //   (the admin-command path).  The crash points verifPoint(200..211) compiled into aof.go (tag verif) copy the data
-//   directory synchronously, in the goroutine that performs the mutation, into <snapdir>/<seq>-<point>.
+//   directory synchronously, in the goroutine that performs the mutation, into <snapdir>/<seq>-<point>; point 0 = the
+//   directory before the rotation, point 299 = the directory after the compaction has returned.
 func verifAofCompactMode(args []string) {
 	dir, logFile, bufSize, rewriteSize, snapDir := args[0], args[1], verifAtoi(args[2]), verifAtoi(args[3]), args[4]
 	_ = os.Chdir(filepath.Dir(logFile))
@@ -545,6 +546,9 @@ func verifAofCompactMode(args []string) {
 	_ = slock.aof.WaitFlushAofChannel()
 	time.Sleep(30 * time.Millisecond)
 	_ = slock.aof.WaitRewriteAofFiles()
+	if armed && seq > 0 {
+		snap(299) // the start-up compaction has returned
+	}
 	armed = false
 	fmt.Printf("cur %d\n", slock.aof.aofFileIndex)
 	for _, h := range verifCensus(slock) {
@@ -578,6 +582,7 @@ func verifAofCompactMode(args []string) {
 			slock.aof.aofGlock.Unlock()
 			time.Sleep(50 * time.Millisecond)
 			_ = slock.aof.WaitRewriteAofFiles()
+			snap(299) // the compaction has returned
 			armed = false
 			fmt.Printf("rotated %v\n", rerr)
 		default:
@@ -693,6 +698,21 @@ func (v *verifScript) hook(n int) {
 	}
 }
 
+// the directory after a compaction has returned (point 299)
+func (v *verifScript) snapDone() {
+	r, w := v.flags()
+	v.mu.Lock()
+	v.seq++
+	ref := v.marks - 1
+	if v.inRequest {
+		ref = v.marks
+	}
+	name := fmt.Sprintf("%03d-%d", v.seq, 299)
+	verifCopyDir(v.dir, filepath.Join(v.snapDir, name))
+	v.events = append(v.events, fmt.Sprintf("snap %03d %d ref=%d rewriting=%d wait=%d active=%d cur=%d files=%s", v.seq, 299, ref, r, w, v.active, v.slock.aof.aofFileIndex, verifListDir(v.dir)))
+	v.mu.Unlock()
+}
+
 func (v *verifScript) emit(format string, a ...interface{}) {
 	v.mu.Lock()
 	v.events = append(v.events, fmt.Sprintf(format, a...))
@@ -754,6 +774,9 @@ func (v *verifScript) trigger(how string) {
 	err := a.RewriteAofFile(true)
 	a.aofGlock.Unlock()
 	out := v.await(baseline, entered0, wasParked)
+	if out == "completed" {
+		v.snapDone()
+	}
 	r, w := v.flags()
 	v.mu.Lock()
 	ov := v.overlap
@@ -818,6 +841,7 @@ func verifAofScriptMode(args []string) {
 		case "mark":
 			v.mark()
 		case "thresh":
+			v.settle() // the records of the earlier requests must have passed PushLock under the old threshold
 			v.thresh = verifAtoi(t[1])
 			if !ref {
 				if v.thresh > 0 {
@@ -868,6 +892,9 @@ func verifAofScriptMode(args []string) {
 				}
 				time.Sleep(200 * time.Microsecond)
 			}
+			if was {
+				v.snapDone()
+			}
 			r, w := v.flags()
 			v.emit("resumed was_parked=%v after=%d%d", was, r, w)
 		default:
@@ -883,6 +910,9 @@ func verifAofScriptMode(args []string) {
 					v.settle()
 					if slock.aof.aofFileIndex != cur0 {
 						out := v.await(baseline, entered0, wasParked)
+						if out == "completed" {
+							v.snapDone()
+						}
 						r, w := v.flags()
 						v.mu.Lock()
 						ov := v.overlap
